@@ -600,6 +600,12 @@ class ndarray:
     def squeeze(self):
         return self._view(self.a.squeeze())
 
+    def searchsorted(self, v, side="left", sorter=None):
+        return searchsorted(self, v, side, sorter)
+
+    def nonzero(self):
+        return where(self)
+
     def fill(self, value):
         self._note_write()
         val = cast_scalar(value, self._dt)
@@ -1230,7 +1236,18 @@ class MaskedArray(ndarray):
 
     def count(self, axis=None):
         if axis is not None:
-            raise Unsupported("count(axis)")
+            if self.a.ndim != 2 or axis not in (1, -1, 0):
+                raise Unsupported(f"count(axis={axis}) on {self.a.ndim}-d")
+            m = self._maskarray().a
+            if axis == 0:
+                m = m.T
+            out = _obj((m.shape[0],))
+            for i in range(m.shape[0]):
+                acc = SInt(0)
+                for x in m[i]:
+                    acc = acc + (~x)._as_int()
+                out[i] = acc
+            return ndarray(out, "int64")
         if self._mask is None:
             return SInt(self.a.size)
         acc = SInt(0)
@@ -2072,6 +2089,11 @@ def masked_invalid(a, copy=True):
         raise TypeError("ufunc 'isfinite' not supported for the input types, and the inputs could not be safely "
                         "coerced to any supported types according to the casting rule ''safe''")
     if a._is_masked and a._mask is not None:
+        if not copy:
+            # numpy: the result is a view sharing the input's mask, and assigning the new mask writes through it
+            merged = _binary("|", bad, a._mask)
+            a._mask[...] = merged
+            return MaskedArray(d, a._mask)
         bad = _binary("|", bad, a._mask)
     return MaskedArray(d, bad)
 
@@ -2207,6 +2229,96 @@ class _Testing:
     pass
 
 
+def _ma_where(condition, x=None, y=None):
+    """numpy.ma.where with three arguments"""
+    if x is None and y is None:
+        c = condition if isinstance(condition, ndarray) else asarray(condition)
+        return where(filled(c, False) if (c._is_masked and c._mask is not None) else c)
+    c = condition if isinstance(condition, ndarray) else asarray(condition)
+    cf = filled(c, False) if (c._is_masked and c._mask is not None) else (c._data_arr() if c._is_masked else c)
+    cm = getmaskarray(c)
+
+    def parts(v):
+        if isinstance(v, MaskedConstant):
+            return SFloat.const(0.0), SBool(True)
+        if isinstance(v, ndarray):
+            return (v._data_arr() if v._is_masked else v), getmaskarray(v)
+        return v, SBool(False)
+    xd, xm = parts(x)
+    yd, ym = parts(y)
+    data = where(cf, xd, yd)
+    mask = where(cf, xm, ym)
+    mask = where(cm, SBool(True), mask)
+    return MaskedArray(data, mask)
+
+
+def searchsorted(a, v, side="left", sorter=None):
+    """numpy's binary search, executed on symbolic comparisons (faithful also when `a` is not sorted)"""
+    if sorter is not None:
+        raise Unsupported("searchsorted(sorter)")
+    a = a if isinstance(a, ndarray) else asarray(a)
+    if a._is_masked:
+        a = a._data_arr()
+    if isinstance(v, (ndarray, list, tuple)):
+        vs = v if isinstance(v, ndarray) else asarray(v)
+        out = _obj(vs.a.shape)
+        for p in _np.ndindex(vs.a.shape):
+            out[p] = SInt(_search1(a, vs.a[p], side))
+        return ndarray(out, "int64")
+    return _search1(a, v, side)
+
+
+def _search1(a, v, side):
+    v = cast_scalar(v, a._dt)
+    lo, hi = 0, a.a.shape[0]
+    while lo < hi:
+        mid = lo + ((hi - lo) >> 1)
+        x = a.a[mid]
+        go_right = (x < v) if side == "left" else (x <= v)
+        if bool(go_right):
+            lo = mid + 1
+        else:
+            hi = mid
+    return lo
+
+
+def cumsum(a, axis=None):
+    a = a if isinstance(a, ndarray) else asarray(a)
+    if a.a.ndim != 1:
+        raise Unsupported("cumsum n-d")
+    out = _obj(a.a.shape)
+    acc = None
+    dt = _np.dtype("int64") if a._dt.kind in "bui" else a._dt
+    for i, x in enumerate(a.a):
+        x = cast_scalar(x, dt)
+        acc = x if acc is None else acc + x
+        out[i] = acc
+    return ndarray(out, dt)
+
+
+def flatnonzero(a):
+    return where(asarray(a).flatten() if not isinstance(a, ndarray) else a.flatten())[0]
+
+
+def append(arr, values, axis=None):
+    return concatenate([atleast_1d(arr).flatten(), atleast_1d(values).flatten()])
+
+
+def isin(element, test_elements):
+    e = element if isinstance(element, ndarray) else asarray(element)
+    t = test_elements if isinstance(test_elements, ndarray) else asarray(test_elements)
+    out = _obj(e.a.shape)
+    for p in _np.ndindex(e.a.shape):
+        out[p] = SBool(mk_or(*[as_sbool_term(e.a[p] == y) for y in t.a.flat]))
+    return ndarray(out, "bool")
+
+
+def as_sbool_term(b):
+    if isinstance(b, SBool):
+        return b.b
+    return TRUE if b else FALSE
+
+
 def count_nonzero(a, axis=None):
     a = a if isinstance(a, ndarray) else asarray(a)
     if axis is not None:
@@ -2217,6 +2329,243 @@ def count_nonzero(a, axis=None):
     for x in a.a.flat:
         acc = acc + cast_scalar(x, _np.dtype("bool"))._as_int()
     return acc
+
+
+ma.where = _ma_where
+ma.count = lambda a, axis=None: (a.count(axis) if (isinstance(a, ndarray) and a._is_masked) else SInt(asarray(a).size))
+ma.asarray = lambda a, dtype=None: _ma_array(a, dtype=dtype)
+ma.asanyarray = lambda a, dtype=None: _ma_array(a, dtype=dtype)
+ma.masked_equal = lambda a, v: masked_where(_binary("==", getdata(a), v), a)
+ma.count_masked = lambda a: SInt(asarray(a).size) - ma.count(a)
+ma.compressed = lambda a: (a._data_arr()[~a._maskarray()] if (isinstance(a, ndarray) and a._is_masked) else asarray(a).flatten())
+
+
+# ---------------------------------------------------------------------------------------------
+# further NumPy surface (plausible refactorings of the repository's code)
+# ---------------------------------------------------------------------------------------------
+
+def _cmp_mask(op):
+    def f(a, value, copy=True):
+        a = a if isinstance(a, ndarray) else asarray(a)
+        return masked_where(_binary(op, getdata(a), value), a, copy=copy)
+    return f
+
+
+ma.masked_less = _cmp_mask("<")
+ma.masked_less_equal = _cmp_mask("<=")
+ma.masked_greater = _cmp_mask(">")
+ma.masked_greater_equal = _cmp_mask(">=")
+ma.masked_not_equal = _cmp_mask("!=")
+
+
+def _masked_outside(a, v1, v2, copy=True):
+    a = a if isinstance(a, ndarray) else asarray(a)
+    lo, hi = (v1, v2) if not bool(_scalar_lt(v2, v1)) else (v2, v1)
+    d = getdata(a)
+    return masked_where(_binary("|", _binary("<", d, lo), _binary(">", d, hi)), a, copy=copy)
+
+
+def _masked_inside(a, v1, v2, copy=True):
+    a = a if isinstance(a, ndarray) else asarray(a)
+    lo, hi = (v1, v2) if not bool(_scalar_lt(v2, v1)) else (v2, v1)
+    d = getdata(a)
+    return masked_where(_binary("&", _binary(">=", d, lo), _binary("<=", d, hi)), a, copy=copy)
+
+
+def _scalar_lt(a, b):
+    r = as_sfloat_strict(a) < as_sfloat_strict(b)
+    return r
+
+
+ma.masked_outside = _masked_outside
+ma.masked_inside = _masked_inside
+ma.mask_or = lambda m1, m2, copy=False, shrink=True: (m2 if m1 is nomask or m1 is None else (m1 if m2 is nomask or m2 is None else _binary("|", m1, m2)))
+ma.make_mask = lambda m, copy=False, shrink=True, dtype=None: (asarray(m).astype("bool"))
+ma.make_mask_none = lambda shape, dtype=None: full(shape, False, "bool")
+ma.fix_invalid = lambda a, mask=None, copy=True, fill_value=None: masked_invalid(a, copy=copy)
+ma.sum = lambda a, axis=None: (a.sum(axis) if isinstance(a, ndarray) else asarray(a).sum(axis))
+ma.count_nonzero = count_nonzero if "count_nonzero" in globals() else None
+ma.any = lambda a, axis=None: (a.any(axis) if isinstance(a, ndarray) else asarray(a).any(axis))
+ma.all = lambda a, axis=None: (a.all(axis) if isinstance(a, ndarray) else asarray(a).all(axis))
+ma.ones_like = ones_like
+ma.zeros_like = zeros_like
+ma.concatenate = lambda arrs, axis=0: _ma_concat(arrs)
+ma.nomask = nomask
+
+
+def _ma_concat(arrs):
+    arrs = [a if isinstance(a, ndarray) else asarray(a) for a in arrs]
+    d = concatenate([getdata(a) for a in arrs])
+    if not _bi.any(a._is_masked and a._mask is not None for a in arrs):
+        return MaskedArray(d, None)
+    m = concatenate([getmaskarray(a) for a in arrs])
+    return MaskedArray(d, m)
+
+
+def _nanfilter(x):
+    x = x if isinstance(x, ndarray) else asarray(x)
+    return MaskedArray(x._data_arr() if x._is_masked else x, isnan(x) if x._dt.kind == "f" else None)
+
+
+def nansum(x, axis=None):
+    r = _nanfilter(x)._unmasked_reduce("sum", axis)
+    return SFloat.const(0.0) if r is masked else r
+
+
+def nanmean(x, axis=None):
+    r = _nanfilter(x)._unmasked_reduce("mean", axis)
+    return SFloat.const(float("nan")) if r is masked else r
+
+
+def nanstd(x, axis=None, ddof=0):
+    r = _nanfilter(x)._unmasked_reduce("std", axis, ddof)
+    return SFloat.const(float("nan")) if r is masked else r
+
+
+def roll(a, shift, axis=None):
+    a = a if isinstance(a, ndarray) else asarray(a)
+    r = _np.roll(a.a, int(shift), axis)
+    if a._is_masked:
+        return MaskedArray(ndarray(r, a._dt), None if a._mask is None else ndarray(_np.roll(a._mask.a, int(shift), axis), "bool"))
+    return ndarray(r, a._dt)
+
+
+def ediff1d(a, to_end=None, to_begin=None):
+    if to_end is not None or to_begin is not None:
+        raise Unsupported("ediff1d(to_end/to_begin)")
+    return diff(asarray(a).flatten() if not isinstance(a, ndarray) else a.flatten())
+
+
+def square(x):
+    return multiply(x, x)
+
+
+def _round_like(kind):
+    def f(x, *a, **k):
+        x = x if isinstance(x, (ndarray, Sym)) else asarray(x)
+        def one(v):
+            v = as_sfloat_strict(v)
+            fl = z3.ToReal(z3.ToInt(v.v))
+            if kind == "floor":
+                r = fl
+            elif kind == "ceil":
+                r = mk_if(mk_eq(fl, v.v), fl, fl + 1)
+            else:  # trunc
+                r = mk_if(v.v >= 0, fl, mk_if(mk_eq(fl, v.v), fl, fl + 1))
+            return SFloat(v.nan, r)
+        if isinstance(x, ndarray):
+            out = _obj(x.a.shape)
+            for p in _np.ndindex(x.a.shape):
+                out[p] = one(x.a[p])
+            r = ndarray(out, "float64")
+            return MaskedArray(r, x._mask_copy()) if x._is_masked else r
+        return one(x)
+    return f
+
+
+floor = _round_like("floor")
+ceil = _round_like("ceil")
+trunc = _round_like("trunc")
+
+
+def sort(a, axis=-1):
+    a = a if isinstance(a, ndarray) else asarray(a)
+    if a.a.ndim != 1 or a._is_masked:
+        raise Unsupported("sort of n-d / masked arrays")
+    xs = list(a.a)
+    n = len(xs)
+    for rnd in range(n):
+        for i in range(rnd % 2, n - 1, 2):
+            x, y = xs[i], xs[i + 1]
+            c = (x <= y)
+            c = c.b if isinstance(c, SBool) else (TRUE if c else FALSE)
+            if a._dt.kind == "f":
+                # NaNs sort to the end
+                c = mk_or(mk_and(mk_not(x.nan), y.nan), mk_and(mk_not(x.nan), mk_not(y.nan), x.v <= y.v), mk_and(x.nan, y.nan))
+            xs[i], xs[i + 1] = ite(c, x, y), ite(c, y, x)
+    out = _obj((n,))
+    for i, x in enumerate(xs):
+        out[i] = x
+    return ndarray(out, a._dt)
+
+
+def fmax(x, y):
+    return _nan_ignoring(x, y, "max")
+
+
+def fmin(x, y):
+    return _nan_ignoring(x, y, "min")
+
+
+def _nan_ignoring(x, y, kind):
+    xa, xd, xarr = _parts(x)
+    ya, yd, yarr = _parts(y)
+    ba, bb = _np.broadcast_arrays(xa, ya)
+    out = _obj(ba.shape)
+    for p in _np.ndindex(ba.shape):
+        a, b = as_sfloat_strict(ba[p]), as_sfloat_strict(bb[p])
+        better = (a.v >= b.v) if kind == "max" else (a.v <= b.v)
+        v = mk_if(a.nan, b.v, mk_if(b.nan, a.v, mk_if(better, a.v, b.v)))
+        out[p] = SFloat(mk_and(a.nan, b.nan), v)
+    if not xarr and not yarr:
+        return out[()]
+    return ndarray(out, "float64")
+
+
+def nan_to_num(x, nan=0.0, **k):
+    x = x if isinstance(x, ndarray) else asarray(x)
+    out = _obj(x.a.shape)
+    fv = SFloat.const(float(nan))
+    for p in _np.ndindex(x.a.shape):
+        v = as_sfloat_strict(x.a[p])
+        out[p] = SFloat(FALSE, mk_if(v.nan, fv.v, v.v))
+    return ndarray(out, "float64")
+
+
+def isclose(a, b, rtol=1e-05, atol=1e-08, equal_nan=False):
+    """|a - b| <= atol + rtol * |b|  (exact over the reals; NaN is close to nothing unless equal_nan)"""
+    xa, xd, xarr = _parts(a)
+    ya, yd, yarr = _parts(b)
+    ba, bb = _np.broadcast_arrays(xa, ya)
+    out = _obj(ba.shape)
+    rt, at = rv(Fraction(float(rtol))), rv(Fraction(float(atol)))
+    for p in _np.ndindex(ba.shape):
+        x, y = as_sfloat_strict(ba[p]), as_sfloat_strict(bb[p])
+        d = x.v - y.v
+        ad = mk_if(d >= 0, d, -d)
+        ay = mk_if(y.v >= 0, y.v, -y.v)
+        close = mk_and(mk_not(x.nan), mk_not(y.nan), ad <= at + rt * ay)
+        if equal_nan:
+            close = mk_or(close, mk_and(x.nan, y.nan))
+        out[p] = SBool(close)
+    if not xarr and not yarr:
+        return out[()]
+    r = ndarray(out, "bool")
+    masked_in = [v for v in (a, b) if isinstance(v, ndarray) and v._is_masked]
+    if masked_in:
+        m = masked_in[0]._maskarray()
+        for o in masked_in[1:]:
+            m = _binary("|", m, o._maskarray())
+        return MaskedArray(r, m)
+    return r
+
+
+def allclose(a, b, rtol=1e-05, atol=1e-08, equal_nan=False):
+    r = isclose(a, b, rtol, atol, equal_nan)
+    return r.all() if isinstance(r, ndarray) else r
+
+
+def take(a, indices, axis=None):
+    a = a if isinstance(a, ndarray) else asarray(a)
+    return a[indices]
+
+
+def logical_not_(x):
+    return logical_not(x)
+
+
+def ones_like_bool(x):
+    return full_like(x, True, dtype=bool)
 
 
 def __getattr__(name):
